@@ -284,7 +284,7 @@ var c14Running string
 func c14Exec(t *testing.T, spec RunSpec, progs []c14Prog, backend int) (*simrt.Result, []progOutcome) {
 	var outs []progOutcome
 	cfg := simConfig(spec.Sim)
-	cfg.TaskStepBudget = 6_000_000
+	cfg.TaskStepBudget = 1_600_000
 	res := simrt.Run(t, cfg, simSource(spec), func(s *simrt.Sim) {
 		s.SetDeadline("program-returns", 2*time.Hour)
 		for _, p := range progs {
@@ -311,6 +311,9 @@ func c14Baseline(t *testing.T, p c14Prog, backend int) *c14Base {
 	res, outs := c14Exec(t, spec, []c14Prog{p}, backend)
 	if res.Outcome != "ok" || len(outs) != 1 {
 		b.skip = "baseline run: " + res.Outcome + " " + clip(res.Detail)
+		if strings.Contains(res.Detail, "step budget") {
+			b.skip = "too long for the corpus (more than 1.6M steps)"
+		}
 		return b
 	}
 	b.po = outs[0]
